@@ -1,5 +1,6 @@
 import PoorModel.Session
 import PoorProofs.Lemmas.Base64
+import PoorProofs.Props.JsonCodec
 /-
 C13 - session cookies restore the stored data and reject foreign ones.
 -/
@@ -48,6 +49,29 @@ theorem C13_roundtrip_b64 {Data : Type} (c : Codec Data)
     (hne : (writeValue (withBase64 c) key d).isEmpty = false) :
     loadValue (withBase64 c) key (writeValue (withBase64 c) key d) = .ok (some d) :=
   C13_roundtrip (withBase64 c) ⟨hjson, hzip, Poor.Base64.decode_encode⟩ key d hd hne
+
+/-- the codec with JSON and base64 made concrete: only the compression module remains a parameter -/
+def jsonCodec (compress : Bytes → Bytes) (decompress : Bytes → Option Bytes) : Codec Poor.Json.J :=
+  { dumps := Poor.Json.dumpBytes, loads := Poor.Json.loadBytes,
+    isDict := fun d => match d with | .obj _ => true | _ => false,
+    compress := compress, decompress := decompress,
+    b64enc := Poor.Base64.encode, b64dec := Poor.Base64.decode }
+
+/-- **round trip with JSON and base64 proved**: for every dictionary of well-formed JSON values, every key stream
+    and every compression module that inverts itself, the cookie value restores an equal dictionary. -/
+theorem C13_roundtrip_json (compress : Bytes → Bytes) (decompress : Bytes → Option Bytes)
+    (hzip : ∀ x, decompress (compress x) = some x) (key : Bytes) (kvs : List (Poor.Json.CpStr × Poor.Json.J))
+    (hok : Poor.Json.JOk (.obj kvs))
+    (hne : (writeValue (jsonCodec compress decompress) key (.obj kvs)).isEmpty = false) :
+    loadValue (jsonCodec compress decompress) key (writeValue (jsonCodec compress decompress) key (.obj kvs))
+      = .ok (some (.obj kvs)) := by
+  have hj : Poor.Json.loadBytes (Poor.Json.dumpBytes (.obj kvs)) = some (.obj kvs) :=
+    JsonCodec.loadBytes_dumpBytes _ hok
+  unfold loadValue
+  rw [hne]
+  simp only [Bool.false_eq_true, if_false]
+  unfold writeValue
+  simp only [jsonCodec, Poor.Base64.decode_encode, hzip, hidden_involutive, hj, if_true]
 
 /-- the cookie value is empty only for an empty compressed payload (which no compression module produces) -/
 theorem C13_value_nonempty {Data : Type} (c : Codec Data) (key : Bytes) (d : Data)
